@@ -25,6 +25,13 @@ def cases(pattern):
                     "5": ["C11", "C12", "C13", "C14", "C15", "C18"], "6": ["C04", "C11", "C12", "C13", "C18"], "7": ["C04", "C08", "C10", "C20"], "8": ["C01", "C05", "C14", "C16", "C19"]}[name[5]]
             out.append((name, p, area, False))
             continue
+        if name.startswith("ref_S"):
+            # second round (structurally deeper refactorings; the areas overlap more)
+            area = {"1": ["C01", "C03", "C05", "C07", "C09", "C16", "C17"], "2": ["C03", "C05", "C07", "C09", "C10", "C17"], "3": ["C02", "C04", "C05", "C06", "C07", "C08", "C17", "C20"],
+                    "4": ["C02", "C03", "C04", "C11", "C13", "C14", "C15", "C18"], "5": ["C11", "C12", "C13", "C14", "C15", "C18", "C19"], "6": ["C04", "C11", "C12", "C13", "C18", "C19"],
+                    "7": ["C04", "C08", "C09", "C10", "C11", "C12", "C13", "C14", "C18", "C19", "C20"], "8": ["C01", "C03", "C05", "C14", "C15", "C16", "C17", "C19"]}[name[5]]
+            out.append((name, p, area, False))
+            continue
         out.append((name, p, allc if name.startswith("all_") else EXTRA.get(name, [name[:3].upper()]), False))
     for d in sorted(glob.glob(os.path.join(VERIF, "seeded/*/"))):
         sid = os.path.basename(d.rstrip("/"))
